@@ -16,7 +16,9 @@ CONSTANTS
   TitleMid <- K_TitleMid
   TitleSmall <- K_TitleSmall
   BodyToks <- K_BodyToks
+  Body3Toks <- K_Body3Toks
   HtmlNames <- K_HtmlNames
+  FullHtmlNames <- K_FullHtmlNames
   SmallWraps <- K_SmallWraps
   AllExts <- K_AllExts
   AExts <- K_AExts
